@@ -1036,7 +1036,9 @@ def _look2_formulas(ob):
 LOOK2_SETUP = [
     [["AddTable", "L", [{"id": "key", "type": "Text"}, {"id": "s1", "type": "Int"},
                         {"id": "s2", "type": "Int"}, {"id": "tags", "type": "ChoiceList"},
-                        {"id": "amt", "type": "Int"}]]],
+                        {"id": "amt", "type": "Int"},
+                        # a formula key column whose cell is an error when s2 is 0
+                        {"id": "kk", "type": "Any", "isFormula": True, "formula": "6 // $s2"}]]],
     [["BulkAddRecord", "L", [None] * 4, {"key": ["a", "b", "a", "a"], "s1": [2, 1, 1, 3],
                                          "s2": [1, 2, 3, 0], "amt": [10, 20, 30, 40],
                                          "tags": [["L", "a"], ["L", "b"], None, ["L", "a", "b"]]}]],
@@ -1051,6 +1053,9 @@ LOOK2_SETUP = [
         {"id": "zz", "type": "Any", "isFormula": True, "formula": "list(L.lookupRecords(key=$x).zz)"},
         {"id": "has", "type": "Any", "isFormula": True,
          "formula": "len(L.lookupRecords(tags=CONTAINS($x)))"},
+        {"id": "byk", "type": "Any", "isFormula": True, "formula": "list(L.lookupRecords(kk=$lim).id)"},
+        # names a table that does not exist yet
+        {"id": "lat", "type": "Any", "isFormula": True, "formula": "len(Later.lookupRecords(y=$lim))"},
     ]]],
     [["AddRecord", "D", None, {"x": "a", "lim": 2}]],
 ]
@@ -1106,6 +1111,14 @@ class WLook2(World):
     A(("upd D x=b/a", [["UpdateRecord", "D", 1, {
         "x": "b" if doc.eng.tables['D'].get_column('x').raw_get(1) == 'a' else "a"}]]))
     A(("upd D lim=1", [["UpdateRecord", "D", 1, {"lim": 1}]]))
+    if len(RL) >= 2 and hl('s2'):
+      A(("upd L second s2=0/6", [["UpdateRecord", "L", RL[1], {
+          "s2": 6 if doc.eng.tables['L'].get_column('s2').raw_get(RL[1]) == 0 else 0}]]))
+    if 'Later' not in doc.eng.tables:
+      A(("addtable Later + rows", [["AddTable", "Later", [{"id": "y", "type": "Int"}]],
+                                   ["BulkAddRecord", "Later", [None, None], {"y": [2, 1]}]]))
+    else:
+      A(("remtable Later", [["RemoveTable", "Later"]]))
     g = getattr(doc, 'last_group', None)
     if g is not None and g.undo:
       A(("undo last", [["ApplyUndoActions", H_undo(g)]]))
